@@ -8,7 +8,7 @@
   `nz` that has a vial).  Both arrangements.
 -/
 import SnowProofs.Lemmas.Groups
-import SnowModel.Store
+import SnowProofs.Lemmas.Store
 
 namespace Snow.C16
 open Snow.Topology Snow.Groups Snow.Store
@@ -19,32 +19,6 @@ variable {nx ny nz i : Nat}
 arrangement, at most 4 / 5 in the hexagonal one -/
 theorem ext_range (arr : Arr) (hnx : 2 ≤ nx) (hny : 2 ≤ ny) (hi : i < nTot nx ny nz) :
     ext arr nx ny nz i ≤ top arr nz := ext_le_top arr hnx hny hi
-
-/-! Facts about one exposure value `e ≤ top` — finite tables over `(int(n_z = 1), e)`. -/
-
-theorem partition_tbl : ∀ arr : Arr, ∀ f, f < 2 → ∀ e, e < 6 →
-    e ≤ (match arr with | .square => 3 | .hexagonal => 5) - f →
-    (groupTestF arr f "corner" e).toNat + (groupTestF arr f "edge" e).toNat
-      + (if arr = .square ∧ f = 0 then (groupTestF arr f "side" e).toNat else 0)
-      + (groupTestF arr f "core" e).toNat = 1 := by
-  intro arr; cases arr <;> decide
-
-theorem synonym_tbl : ∀ arr : Arr, ∀ f, f < 2 → ∀ e, e < 6 →
-    (groupTestF arr f "center" e = groupTestF arr f "core" e)
-    ∧ ((arr = .hexagonal ∨ f = 1) → groupTestF arr f "side" e = groupTestF arr f "edge" e) := by
-  intro arr; cases arr <;> decide
-
-theorem labels_tbl : ∀ arr : Arr, ∀ f, f < 2 → ∀ e, e < 6 →
-    e ≤ (match arr with | .square => 3 | .hexagonal => 5) - f →
-    statsLabelF arr f e = trajLabelF arr f e
-    ∧ ∃ s ∈ ["corner", "edge", "side", "core"], statsLabelF arr f e = .name s
-        ∧ groupTestF arr f s e = true
-        ∧ ∀ g ∈ ["corner", "edge", "side", "core", "center"],
-            (groupTestF arr f g e = true ↔ canonF arr f g = canonF arr f s) := by
-  intro arr; cases arr <;> decide
-
-theorem top_lt_six (arr : Arr) (nz e : Nat) (h : e ≤ top arr nz) : e < 6 := by
-  unfold top at h; cases arr <;> simp only at h <;> omega
 
 /-- **every vial is in exactly one position class**: corner, edge, side (a class of
 its own only in a square pallet) or core. -/
@@ -126,15 +100,6 @@ theorem fall_filter_agrees (arr : Arr) (nx ny nz : Nat) (gs : List String) :
       = (getVialGroup arr nx ny nz gs).map fun m => (List.range m.length).filter fun i => m.getD i false := by
   unfold fallFilter
   cases getVialGroup arr nx ny nz gs <;> rfl
-
-/-- a request string that names one group and neither `random` nor `uniform` -/
-theorem store_string_group (arr : Arr) (nz : Nat) (exts : List Nat) (s g : String) (choice : List Nat)
-    (hg : firstGroup (lower s) = some g)
-    (hr : hasSub "random".toList (lower s) = false) (hu : hasSub "uniform".toList (lower s) = false) :
-    interpretString arr nz exts s choice = (maskOf arr nz exts [g]).map fun m => (m, false) := by
-  unfold interpretString
-  simp only [hg, hr, hu]
-  cases maskOf arr nz exts [g] <;> rfl
 
 /-- **selecting vials to record by group name uses the same classes**: for each of the
 six names, `storeStates=name` records exactly `getVialGroup(name)`. -/
